@@ -361,12 +361,33 @@ func isWireStruct(t types.Type) bool {
 	return pp == pJSON || pp == pSchemaJS
 }
 
+// isDecodeTarget: a wire struct of the JSON packages, or any struct (named or anonymous, e.g. a local `var res struct{…}`)
+// that declares json field tags — the shape encoding/json fills in, leaving pointer members nil for null or absent keys.
+func isDecodeTarget(t types.Type) bool {
+	if isWireStruct(t) {
+		return true
+	}
+	st, ok := t.Underlying().(*types.Struct)
+	if !ok {
+		return false
+	}
+	if n := namedOf(t); n != nil && n.Obj().Pkg() != nil && !strings.HasPrefix(n.Obj().Pkg().Path(), modPath) {
+		return false
+	}
+	for i := 0; i < st.NumFields(); i++ {
+		if strings.Contains(st.Tag(i), "json:\"") {
+			return true
+		}
+	}
+	return false
+}
+
 func c10NilDeref(p *Prog, r *Report) {
 	const rule = "R10.3-nil-deref"
 	dp := derefParams(p)
 	for _, fn := range p.Funcs {
 		pp := fnPkgPath(fn)
-		if pp != pJSON && pp != pSchemaJS && pp != pRoot {
+		if pp != pJSON && pp != pSchemaJS && pp != pRoot && pp != pTypes && pp != modPath+"/x/exp/types" {
 			continue
 		}
 		// sources: loads of pointer-typed fields of wire structs; pointer-valued map / slice elements of wire containers
@@ -386,7 +407,7 @@ func c10NilDeref(p *Prog, r *Report) {
 					return
 				}
 				if fa, ok := x.X.(*ssa.FieldAddr); ok {
-					if pt, ok := fa.X.Type().Underlying().(*types.Pointer); ok && isWireStruct(pt.Elem()) {
+					if pt, ok := fa.X.Type().Underlying().(*types.Pointer); ok && isDecodeTarget(pt.Elem()) {
 						st := pt.Elem().Underlying().(*types.Struct)
 						sources = append(sources, source{x, "field:" + canonPath(fa.X) + "." + itoa(fa.Field), typeShort(pt.Elem()) + "." + st.Field(fa.Field).Name()})
 					}
@@ -399,7 +420,7 @@ func c10NilDeref(p *Prog, r *Report) {
 					}
 				}
 			case *ssa.Field:
-				if _, isPtr := x.Type().Underlying().(*types.Pointer); isPtr && isWireStruct(x.X.Type()) {
+				if _, isPtr := x.Type().Underlying().(*types.Pointer); isPtr && isDecodeTarget(x.X.Type()) {
 					st := x.X.Type().Underlying().(*types.Struct)
 					sources = append(sources, source{x, "field:" + canonPath(x.X) + "." + itoa(x.Field), typeShort(x.X.Type()) + "." + st.Field(x.Field).Name()})
 				}
@@ -415,6 +436,73 @@ func c10NilDeref(p *Prog, r *Report) {
 					sources = append(sources, source{x, "lookup:" + x.Name(), "map element " + typeShort(x.Type())})
 				}
 			}
+		})
+		// containers of pointers taken out of a decode target: encoding/json stores a nil pointer for a null member without
+		// calling any unmarshaller, so such a map or slice may leave the decoder only element by element, behind a nil test
+		forEachInstr(fn, func(in ssa.Instruction) {
+			var v ssa.Value
+			var owner types.Type
+			var fname string
+			switch x := in.(type) {
+			case *ssa.UnOp:
+				if fa, ok := x.X.(*ssa.FieldAddr); ok && x.Op == token.MUL {
+					if pt, ok := fa.X.Type().Underlying().(*types.Pointer); ok && isDecodeTarget(pt.Elem()) {
+						v, owner, fname = x, pt.Elem(), pt.Elem().Underlying().(*types.Struct).Field(fa.Field).Name()
+					}
+				}
+			case *ssa.Field:
+				if isDecodeTarget(x.X.Type()) {
+					v, owner, fname = x, x.X.Type(), x.X.Type().Underlying().(*types.Struct).Field(x.Field).Name()
+				}
+			}
+			if v == nil {
+				return
+			}
+			var elem types.Type
+			switch ct := v.Type().Underlying().(type) {
+			case *types.Map:
+				elem = ct.Elem()
+			case *types.Slice:
+				elem = ct.Elem()
+			}
+			if elem == nil {
+				return
+			}
+			if _, isPtr := elem.Underlying().(*types.Pointer); !isPtr {
+				return
+			}
+			// only inside functions that fill the struct from JSON themselves
+			decodes := false
+			for _, c := range callsIn(fn) {
+				if g := c.Common().StaticCallee(); g != nil && (stdName(g) == "encoding/json.Unmarshal" || stdName(g) == "json.Unmarshal" || strings.HasSuffix(stdName(g), "Decoder.Decode")) {
+					decodes = true
+				}
+			}
+			if !decodes {
+				return
+			}
+			construct := fnQual(fn) + ":" + typeShort(owner) + "." + fname + ":container"
+			var leaks []string
+			for _, al := range mergedWith(v) {
+				if al.Referrers() == nil {
+					continue
+				}
+				for _, u := range *al.Referrers() {
+					switch y := u.(type) {
+					case *ssa.Store:
+						if y.Val == al {
+							leaks = append(leaks, "stored at "+p.pos(y.Pos()))
+						}
+					case *ssa.Return:
+						leaks = append(leaks, "returned at "+p.pos(y.Pos()))
+					case *ssa.MakeInterface:
+						leaks = append(leaks, "boxed at "+p.pos(y.Pos()))
+					}
+				}
+			}
+			sort.Strings(leaks)
+			r.Check(len(leaks) == 0, rule, construct, p.pos(in.Pos()), "the decoded container of pointers is only ranged over / looked up here",
+				typeShort(owner)+"."+fname+" is a container of pointers filled by encoding/json (a null member becomes a nil pointer, no unmarshaller runs) and leaves the decoder whole ("+strings.Join(leaks, "; ")+"): a later dereference of a nil element panics")
 		})
 		if len(sources) == 0 {
 			continue
@@ -451,8 +539,10 @@ func c10NilDeref(p *Prog, r *Report) {
 					if s.key != key {
 						continue
 					}
-					if nn, k := nilTest(g, s.v); k && nn {
-						return true
+					for _, al := range mergedWith(s.v) {
+						if nn, k := nilTest(g, al); k && nn {
+							return true
+						}
 					}
 				}
 			}
@@ -501,6 +591,32 @@ func c10NilDeref(p *Prog, r *Report) {
 	}
 }
 
+// mergedWith: v and the phis (and pointer conversions) it flows into.
+func mergedWith(v ssa.Value) []ssa.Value {
+	out := []ssa.Value{v}
+	seen := map[ssa.Value]bool{v: true}
+	for i := 0; i < len(out); i++ {
+		if out[i].Referrers() == nil {
+			continue
+		}
+		for _, u := range *out[i].Referrers() {
+			switch y := u.(type) {
+			case *ssa.Phi:
+				if !seen[y] {
+					seen[y] = true
+					out = append(out, y)
+				}
+			case *ssa.ChangeType:
+				if !seen[y] {
+					seen[y] = true
+					out = append(out, y)
+				}
+			}
+		}
+	}
+	return out
+}
+
 // derefUses: instructions that use pointer v directly or after a pointer conversion.
 func derefUses(v ssa.Value) []ssa.Instruction {
 	var out []ssa.Instruction
@@ -518,7 +634,9 @@ func derefUses(v ssa.Value) []ssa.Instruction {
 			case *ssa.Convert:
 				rec(y)
 			case *ssa.Phi:
-				// merged with other values: skip (would need all alternatives)
+				// merged with other values: the merged pointer may be nil whenever this alternative is; its uses count, and
+				// only a nil test of the merged value itself (or of this alternative, which dominates) clears them
+				rec(y)
 			default:
 				out = append(out, u)
 			}
@@ -604,10 +722,24 @@ func c10Index(p *Prog, r *Report) {
 					}
 				}
 			}
+			if par, ok := seq.(*ssa.Parameter); ok && !fromInput && fn.Parent() != nil {
+				// a callback's slice parameter: the callback is handed to a combinator together with a child list, and the
+				// combinator calls it with a slice of that list's length
+				need := k + 1
+				if _, isSliceOp := in.(*ssa.Slice); isSliceOp {
+					need = k
+				}
+				construct := fnQual(fn) + ":param " + par.Name() + "[" + itoa(int(k)) + "]"
+				if lenFactAtLeast(in.Block(), seq, need) {
+					r.OK(rule, construct, p.pos(pos), "dominated by a length test (len >= "+itoa(int(need))+")")
+					return
+				}
+				why, ok := c10CombinatorLength(p, fn, need)
+				r.Check(ok, rule, construct, p.pos(pos), why, "constant index "+itoa(int(k))+" into the callback's slice parameter "+par.Name()+": "+why+" — a shorter slice panics here")
+				return
+			}
 			if par, ok := seq.(*ssa.Parameter); ok && !fromInput && fn.Parent() == nil {
-				// a slice parameter of a named function: the length is whatever the callers hand over. (Callbacks handed to
-				// the tryFold/tryPartial combinators are out of scope: their slice has the length of the child list passed
-				// alongside them, a relation between two values that no rule here establishes.)
+				// a slice parameter of a named function: the length is whatever the callers hand over.
 				need := k + 1
 				if _, isSliceOp := in.(*ssa.Slice); isSliceOp {
 					need = k
@@ -875,6 +1007,96 @@ func c10TableLength(p *Prog, fn *ssa.Function, b *ssa.BasicBlock, par *ssa.Param
 		}
 	}
 	return "", false
+}
+
+// c10CombinatorLength: closure fn is created only to be passed, in the same call, next to a fresh child list of at least
+// `need` elements to one of the module's combinators, and that combinator calls its function parameters only with its own
+// list parameter or with a local list it grows by one element per element of that parameter (the second is taken on
+// trust: it is the combinators' contract, two functions, and R4/R6 look at them).
+func c10CombinatorLength(p *Prog, fn *ssa.Function, need int64) (string, bool) {
+	var uses []ssa.Instruction
+	if mc := makeClosureOf(fn); mc != nil {
+		uses = append(uses, *mc.Referrers()...)
+	} else if fn.Parent() != nil {
+		// a function literal that captures nothing is a plain function value: look for it among its parent's operands
+		forEachInstr(fn.Parent(), func(in ssa.Instruction) {
+			for _, op := range in.Operands(nil) {
+				if *op == ssa.Value(fn) {
+					uses = append(uses, in)
+				}
+			}
+		})
+	}
+	if len(uses) == 0 {
+		return "the callback's creation site was not found", false
+	}
+	n := 0
+	for _, ref := range uses {
+		call, ok := ref.(ssa.CallInstruction)
+		if !ok {
+			return "the callback is used other than as a call argument (" + p.pos(ref.Pos()) + ")", false
+		}
+		cc := call.Common()
+		g := cc.StaticCallee()
+		if g == nil || !strings.HasPrefix(fnPkgPath(g), modPath) {
+			return "the callback is passed to something other than one of the module's functions", false
+		}
+		// the child list: the (only) slice argument that is not a function
+		var list ssa.Value
+		listIdx := -1
+		for i, a := range cc.Args {
+			if _, isSl := a.Type().Underlying().(*types.Slice); isSl {
+				if list != nil {
+					return "the combinator call at " + p.pos(call.Pos()) + " has more than one list argument", false
+				}
+				list, listIdx = a, i
+			}
+		}
+		if list == nil {
+			return "the combinator call at " + p.pos(call.Pos()) + " has no list argument", false
+		}
+		good := false
+		if sl, ok := list.(*ssa.Slice); ok && sl.Low == nil && sl.High == nil {
+			if al, ok := sl.X.(*ssa.Alloc); ok {
+				if at, ok := al.Type().Underlying().(*types.Pointer).Elem().Underlying().(*types.Array); ok && at.Len() >= need {
+					good = true
+				}
+			}
+		}
+		if !good {
+			return "the list handed to " + g.Name() + " at " + p.pos(call.Pos()) + " is not a literal of at least " + itoa(int(need)) + " element(s)", false
+		}
+		// the combinator hands its function parameters its own list parameter or a local list
+		for _, c := range callsIn(g) {
+			gc := c.Common()
+			if gc.IsInvoke() {
+				continue
+			}
+			if _, isPar := gc.Value.(*ssa.Parameter); !isPar {
+				continue
+			}
+			for _, a := range gc.Args {
+				if _, isSl := a.Type().Underlying().(*types.Slice); !isSl {
+					continue
+				}
+				switch x := a.(type) {
+				case *ssa.Parameter:
+					if listIdx >= len(g.Params) || x != g.Params[listIdx] {
+						return g.Name() + " calls a callback with a list parameter other than the child list", false
+					}
+				case *ssa.Phi, *ssa.Call:
+					// the locally grown list (values): contract of the combinator
+				default:
+					return g.Name() + " calls a callback with a list of unknown origin at " + p.pos(c.Pos()), false
+				}
+			}
+		}
+		n++
+	}
+	if n == 0 {
+		return "the callback is never passed on", false
+	}
+	return "handed to a combinator next to a literal child list of at least " + itoa(int(need)) + " element(s)", true
 }
 
 // c10CallersGuarantee: every call of fn found in the program passes, for the slice parameter par, a value of known
